@@ -111,6 +111,11 @@ func (w *World) DoHTTP(t *Task, method, path string, body []byte, inj *Injection
 
 // DoHTTPct: the same with a Content-Type chosen by the plan ("" application/json, "-" none).
 func (w *World) DoHTTPct(t *Task, method, path string, body []byte, inj *Injection, ctype string) *OpResult {
+	return w.DoHTTPh(t, method, path, body, inj, ctype, nil)
+}
+
+// DoHTTPh: the same with further request headers.
+func (w *World) DoHTTPh(t *Task, method, path string, body []byte, inj *Injection, ctype string, hdr map[string]string) *OpResult {
 	rec := w.begin(t, inj)
 	var rd *bytes.Reader
 	req := httptest.NewRequest(method, path, nil)
@@ -124,6 +129,9 @@ func (w *World) DoHTTPct(t *Task, method, path string, body []byte, inj *Injecti
 		default:
 			req.Header.Set("Content-Type", ctype)
 		}
+	}
+	for k, v := range hdr {
+		req.Header.Set(k, v)
 	}
 	rw := httptest.NewRecorder()
 	if w.guarded(t, func() { w.env.Handler().ServeHTTP(rw, req) }) {
